@@ -7,7 +7,7 @@ from typing import Dict, List, Optional, Tuple
 from sa.cfg import cfg_of
 from sa.flow import flow_of, Expander
 from sa.model import Func, unmangle, walk_no_nested, src
-from sa.pat import match, same
+from sa.pat import match, same, attr_path
 from sa.types import base
 from sa import facts
 
@@ -861,3 +861,96 @@ def shared_mutable_defaults(ctx, o, funcs, what="state"):
             else:
                 o.site(f, f.node, f"mutable default of `{name}` only read")
     return n
+
+
+# ---------------------------------------------------------------------------------------------------------------------
+# the recursion of a pass must stay inside the WBS being scheduled (F38)
+def _same_wbs_guard(test, pol, elem: str, task: str) -> Optional[bool]:
+    """does (test, pol) say `<elem>.wbs` is the WBS of the task being scheduled?  True: it does; False: it says the opposite
+    (the call runs for outside tasks only); None: not a membership test"""
+    t = test
+    while isinstance(t, ast.UnaryOp) and isinstance(t.op, ast.Not):
+        t, pol = t.operand, not pol
+    if not (isinstance(t, ast.Compare) and len(t.ops) == 1):
+        return None
+    op = t.ops[0]
+    if isinstance(op, (ast.Is, ast.Eq)):
+        same_ = pol
+    elif isinstance(op, (ast.IsNot, ast.NotEq)):
+        same_ = not pol
+    else:
+        return None
+    l, r = attr_path(t.left), attr_path(t.comparators[0])
+    if l is None or r is None:
+        return None
+    if {l, r} == {f"{elem}.wbs", f"{task}.wbs"}:
+        return same_
+    return None
+
+
+def recursion_stays_in_wbs(ctx, o, S):
+    """Each pass keeps its memo of scheduled tasks by task id, and ids are unique only inside one WBS (C05).  clone() keeps links
+    to tasks outside the source attached to those same outside tasks (C10), and an outside task still lists the ORIGINAL members
+    it is linked with.  A pass that recurses into every linked task therefore walks out of the clone: it schedules (writes) the
+    outside task and, through it, tasks of the caller's own WBS, books their work in this schedule's ledger, and records their
+    ids in the memo - the clones with the same ids are then skipped, keep estimate / start None, and the roll-up of their summary
+    task ends in TypeError.  Required: every recursive call on an element of a dependency-link collection runs only when the
+    element reports the WBS of the task being scheduled (the dates of an outside task are input: the pre-flight check demands
+    them for predecessors); recursion into children needs no guard (a child reports its parent's WBS: C11)."""
+    ps = PassShape(ctx, S)
+    f, cfg, task, rel = ps.f, ps.cfg, ps.task, ps.rel
+    calls = ps.pass_calls()
+    if not calls:
+        o.undecided(f, f.node, 'recursion', "no recursive call of the pass found")
+        return
+    for c in calls:
+        it = ps.call_iter(c)
+        if it is None or not c.args:
+            o.undecided(f, c, 'recursion', f"cannot tell which tasks `{src(c)[:70]}` is called for")
+            continue
+        fo, coll = it
+        cn = cfg.node_containing(c)
+        collx = ps.ex.expand(coll, cfg.node_of(fo))
+        core = collx
+        m = match("reversed($x)", core) or match("list($x)", core) or match("tuple($x)", core)
+        while m:
+            core = m['x']
+            m = match("reversed($x)", core) or match("list($x)", core) or match("tuple($x)", core)
+        if match(f"{task}.children", core):
+            o.site(f, c, "recursion into the children of the task (same WBS by C11)")
+            continue
+        cs = ps.collection_sources(coll, cfg.node_of(fo))
+        linkish = cs['own'] or cs['ancestors'] or any(
+            isinstance(n, ast.Attribute) and n.attr in ('predecessors', 'successors', 'all_predecessors', 'all_successors')
+            for n in ast.walk(collx))
+        if not linkish:
+            o.undecided(f, c, 'recursion', f"`{src(c)[:70]}` runs over `{src(coll)[:60]}`: neither the children nor a dependency-link collection")
+            continue
+        elem = c.args[0].id if isinstance(c.args[0], ast.Name) else None
+        verdict = None
+        if elem:
+            for t, pol in ps.conds(c):
+                g = _same_wbs_guard(t, pol, elem, task)
+                if g is not None:
+                    verdict = g
+                    break
+        if verdict is None:
+            # the collection itself may be filtered: [p for p in LINKS if p.wbs is task.wbs]
+            parts = facts.comp_parts(collx) if isinstance(collx, (ast.ListComp, ast.GeneratorExp)) else None
+            if parts and isinstance(parts[1], ast.Name):
+                for cond in parts[3]:
+                    for t, pol in facts.split_conj(cond, True):
+                        g = _same_wbs_guard(t, pol, parts[1].id, task)
+                        if g is not None:
+                            verdict = g
+        if verdict:
+            o.site(f, c, f"recursion over {rel} only for tasks that report the WBS being scheduled")
+        elif verdict is False:
+            o.refute(f, c, f"recursion over {rel}", f"`{src(c)[:70]}` runs only for linked tasks OUTSIDE the WBS being scheduled")
+        elif cs['unknown'] and not (cs['own'] or cs['ancestors']):
+            o.undecided(f, c, f"recursion over {rel}", f"the collection `{src(coll)[:60]}` is built in a form that is not followed; no membership guard found")
+        else:
+            o.refute(f, c, f"recursion over {rel}",
+                     f"`{src(c)[:70]}` runs for every linked task, also for tasks outside the WBS being scheduled: the pass walks out of "
+                     f"the clone (through an outside task back to the caller's own tasks), writes them, and its memo keyed by task id then "
+                     f"skips the clones with the same ids (summary roll-up meets None: TypeError)")
